@@ -39,8 +39,9 @@ Streams (implementation = harness/src/bin/loud.rs on the crate built from the tr
   real      the customasm binary in scratch directories under .cache/c03: directed corpus, mutants, option/format
             combinations, and I/O faults (missing file, directory in place of a file, missing parent directory, path
             through a file, directory in place of the output; chmod 000 / read-only directory when not running as root),
-            unwritable standard streams (stdout = /dev/full or a pipe nobody reads, with and without a requested `-p`
-            printout; stderr = /dev/full on failing runs) and arguments that are not valid UTF-8 (input name, output name,
+            unwritable standard streams as REGRESSION cases of F64 (stdout = /dev/full or a pipe nobody reads, for every
+            printing path: progress lines, `writing ..`, `-p` printout, --help, --version; stderr = /dev/full or such a pipe on
+            failing runs; both at once): exit status 1 and, when stderr is writable, the diagnostic - never a panic - and arguments that are not valid UTF-8 (input name, output name,
             define, format)
 """
 import os, json, re, time, shutil
@@ -230,8 +231,7 @@ def library_line(c):
 
 def known_class(case, what, known):
     """a violation inside a class listed as `known` in KNOWN_FINDINGS.json -> (id, text) else None"""
-    # no input-text class is known for C03 at present (F48 / F61 / F62 are fixed in /repo: a fixed entry suppresses nothing);
-    # the process-level classes (standard_stream_unwritable) are matched where the real binary is judged
+    # no class is known for C03 at present (F48 F61 F62 F63 F64 are fixed in /repo: a fixed entry suppresses nothing)
     return None
 
 
@@ -525,17 +525,40 @@ def stdio_and_argv_jobs(rng, drv_cases, drv_out, quick):
     jobs = []
     ok = [i for i, c in enumerate(drv_cases) if c["stream"] == "fault" and not c["faults"] and on_disk(c) and drv_out[i].get("status") == "OK"]
     n = 40 if quick else 300
+    # regression cases of F64: every printing path (progress lines, `-p` printout, `writing ..`, --help, --version) with a
+    # standard output that cannot be written must END with exit status 1 and the diagnostic on stderr - never a panic
     for i in rng.shuffle(ok)[:n]:
         c = drv_cases[i]
         cmd = c["cmd"]
         prints = any(gr["print"] for gr in cmd.groups)
+        must = prints or not cmd.quiet          # something goes to the standard output
         for sink in ("full", "epipe"):
             jobs.append((c, cmd, None, [], "stdio: stdout %s%s%s" % (sink, ", -p requested" if prints else "", ", quiet" if cmd.quiet else ""),
-                         rng.choice(["debug", "release"]), {"stdout": sink, "must_fail": prints}))
+                         rng.choice(["debug", "release"]), {"stdout": sink, "must_fail": must}))
+        jobs.append((c, cmd, None, [], "stdio: stdout and stderr full", rng.choice(["debug", "release"]), {"stdout": "full", "stderr": "full", "must_fail": must}))
+    if ok:
+        # --debug-iters prints from inside the resolver and the matcher (debug traces: a failed write is ignored there, so the
+        # run fails only if something ELSE has to be printed): directed, in every run - never a panic
+        for k, i in enumerate(ok[:6]):
+            c = drv_cases[i]
+            import copy
+            dc = copy.deepcopy(c["cmd"])
+            dc.debug_iters, dc.quiet = True, bool(k % 2)
+            for sink in ("full", "epipe"):
+                jobs.append((c, dc, None, [], "stdio: --debug-iters with stdout %s" % sink, ("debug", "release")[k % 2], {"stdout": sink, "must_fail": (not dc.quiet) or any(gr["print"] for gr in dc.groups), "debug_iters": True}))
+        for flag in ("-h", "--help", "-v", "--version"):
+            for sink in (None, "full", "epipe"):
+                c = drv_cases[ok[0]]
+                hc = g.Cmd()
+                hc.help, hc.version = flag in ("-h", "--help"), flag in ("-v", "--version")
+                hc.argv = (lambda f: lambda: ["customasm", f])(flag)
+                jobs.append((c, hc, None, [], "stdio: %s with stdout %s" % (flag, sink or "captured"), ("debug", "release")[len(jobs) % 2],
+                             {"stdout": sink, "must_fail": sink is not None}))
     bad_i = [i for i, c in enumerate(drv_cases) if c["stream"] == "driver" and on_disk(c) and drv_out[i].get("status") == "ERR" and not c["cmd"].debug_iters]
     for i in rng.shuffle(bad_i)[:n // 2]:
         c = drv_cases[i]
-        jobs.append((c, c["cmd"], None, [], "stdio: stderr full on a failing run", rng.choice(["debug", "release"]), {"stderr": "full"}))
+        for sink in ("full", "epipe"):
+            jobs.append((c, c["cmd"], None, [], "stdio: stderr %s on a failing run" % sink, rng.choice(["debug", "release"]), {"stderr": sink, "must_fail": True}))
     for i in rng.shuffle(ok)[:n // 2]:
         c = drv_cases[i]
         for variant in ("input", "output", "define", "format"):
@@ -607,7 +630,9 @@ def stream_real(chk, lim, real, drv_cases, drv_out, corpus_cases, known):
         if not bad and c.get("must_fail") and what == "magnitude" and res["rc"] == 0:
             bad = "silent success: a value that cannot be represented / honoured was accepted with exit status 0"
         if not bad and io.get("must_fail") and res["rc"] == 0:
-            bad = "the requested printout cannot be written (%s), yet exit status 0" % io.get("stdout")
+            bad = "the standard %s cannot be written, yet exit status 0" % ("output (%s)" % io.get("stdout") if io.get("stdout") else "error stream")
+        if not bad and io.get("stdout") and not io.get("stderr") and io.get("must_fail") and b"could not write to the standard output" not in res["stderr"]:
+            bad = "exit status 1 but the diagnostic for the unwritable standard output is missing"
         if not bad and unw and res["rc"] == 0:
             bad = "requested output %r cannot be written, yet exit status 0" % (unw,)
         if not bad and what == "corpus" and c.get("expect") in ("ok", "err") and (res["rc"] == 0) != (c["expect"] == "ok"):
@@ -622,10 +647,6 @@ def stream_real(chk, lim, real, drv_cases, drv_out, corpus_cases, known):
                 dist["c19_class"] += 1
                 continue
             kn = known_class(c, bad, known)
-            if not kn and what.startswith("argv") and "panic" in bad and "env.rs" in bad:
-                kn = known.get("non_utf8_command_line_argument")
-            if not kn and what.startswith("stdio") and ("panic" in bad or "exit status 101" in bad):
-                kn = known.get("standard_stream_unwritable")
             if kn:
                 chk.known(kn["id"], "%s (real binary, %s) %s %r: %s" % (kn["class"], prof, what, argv_shown[1:], bad))
                 continue
